@@ -203,7 +203,89 @@ def shim_wrap(name, original, replacement):
     return '/*@S<%s:%s*/%s/*@S>*/' % (name, base64.b64encode(original.encode()).decode(), replacement)
 
 
-def weave_fn(fs: FnSpec, text: str, sig_brace: int, shim_table, variant=0):
+def _stmt_token(ms: str) -> str:
+    """rename-insensitive token of one statement: its kind plus the `self.` members and method names it mentions"""
+    t = ms.lstrip()
+    mm = re.match(r"(?:'[a-z_]+\s*:\s*)?(let|if|for|while|loop|match|return|continue|break)\b", t)
+    kind = mm.group(1) if mm else ('set' if re.match(r'[a-z_0-9.]+\s*(=|\+=|-=)[^=]', t) else 'expr')
+    names = set(re.findall(r'\bself\s*\.\s*([a-z_0-9]+)', t)) | set(re.findall(r'\.\s*([a-z_0-9]+)\s*\(', t)) | set(re.findall(r'\b([A-Z][A-Z0-9_]{2,})\b', t))
+    return kind + '|' + ','.join(sorted(names))
+
+
+def fn_shape(text: str, sig_brace: int):
+    """A rename-insensitive fingerprint of a function body's statement structure: a token per top-level statement and,
+    per loop in pre-order, its keyword and a token per top-level statement of its body; plus the number of closures.
+    Contracts are woven at ordinal anchors (`@after top j`, `@loop k`, `@after loop k stmt j`); when the structure differs
+    from the one the contract was written for, anchors are re-mapped by aligning the two token sequences."""
+    m = mask(text)
+    tops = [_stmt_token(m[a:b]) for a, b in top_statements(m, sig_brace)]
+    loops = []
+    for lp in find_loops(m[sig_brace:]):
+        ob = lp['open'] + sig_brace
+        try:
+            st = [_stmt_token(m[a:b]) for a, b in top_statements(m, ob)]
+        except Exception:   # noqa: BLE001
+            st = ['?']
+        hdr = m[lp['kw_pos'] + sig_brace:ob]
+        loops.append(dict(kw=lp['kw'], hdr=_stmt_token(hdr), stmts=st))
+    return dict(tops=tops, loops=loops, closures=len(find_closures(m[sig_brace:])))
+
+
+def _structure(sh):
+    return ([t.split('|')[0] for t in sh['tops']], [(l['kw'], [t.split('|')[0] for t in l['stmts']]) for l in sh['loops']], sh['closures'])
+
+
+def _align(old, new):
+    """old index -> new index (0-based) for two token lists (`kind|names`): a global alignment that only ever pairs statements
+    of the same kind, prefers equal tokens, then statements sharing most of the names they mention; finally a statement that
+    was moved (an unmatched old token with exactly one identical unmatched new token) is paired with its new position."""
+    def score(a, b):
+        ka, _, na = a.partition('|')
+        kb, _, nb = b.partition('|')
+        if ka != kb:
+            return None
+        if a == b:
+            return 4
+        sa, sb = set(filter(None, na.split(','))), set(filter(None, nb.split(',')))
+        if not sa and not sb:
+            return 2
+        j = len(sa & sb) / float(len(sa | sb))
+        return 3 if j >= 0.5 else (1 if j > 0 else 0.5)
+    n, m_ = len(old), len(new)
+    best = [[0.0] * (m_ + 1) for _ in range(n + 1)]
+    back = [[None] * (m_ + 1) for _ in range(n + 1)]
+    for i in range(1, n + 1):
+        for j in range(1, m_ + 1):
+            cands = [(best[i - 1][j], 'u'), (best[i][j - 1], 'l')]
+            sc = score(old[i - 1], new[j - 1])
+            if sc is not None:
+                cands.append((best[i - 1][j - 1] + sc, 'd'))
+            best[i][j], back[i][j] = max(cands, key=lambda c: c[0])
+    mp = {}
+    i, j = n, m_
+    while i > 0 and j > 0:
+        b = back[i][j]
+        if b == 'd':
+            mp[i - 1] = j - 1
+            i, j = i - 1, j - 1
+        elif b == 'u':
+            i -= 1
+        else:
+            j -= 1
+    free_new = [j for j in range(m_) if j not in mp.values()]
+    for want in (4, 3):   # moved statements: identical token first, then same kind sharing most names
+        for i, t in enumerate(old):
+            if i in mp:
+                continue
+            cand = [j for j in free_new if score(t, new[j]) is not None and score(t, new[j]) >= want]
+            rivals = [i2 for i2 in range(n) if i2 not in mp and i2 != i and any(score(old[i2], new[j]) is not None and score(old[i2], new[j]) >= want for j in cand)]
+            if len(cand) == 1 and not rivals:
+                mp[i] = cand[0]
+                free_new.remove(cand[0])
+    return mp
+
+
+def weave_fn(fs: FnSpec, text: str, sig_brace: int, shim_table, variant=0, baseline=None):
     """text: the function's verbatim source text; sig_brace: index of the body '{'.
     Returns woven text."""
     m = mask(text)
@@ -222,10 +304,43 @@ def weave_fn(fs: FnSpec, text: str, sig_brace: int, shim_table, variant=0):
     body_close = match_close(m, sig_brace)
     name = fs.name
 
+    # ordinal anchors are written for the baseline structure (contracts/shapes.json); on a different structure they are
+    # re-mapped by aligning statement tokens, and an anchor whose statement has no counterpart is a lost anchor
+    cur_shape = fn_shape(text, sig_brace) if baseline else None
+    top_map = loop_map = None
+    if baseline and _structure(cur_shape) != _structure(baseline):
+        top_map = _align(baseline['tops'], cur_shape['tops'])
+        loop_map = _align([l['kw'] + '/' + l['hdr'] for l in baseline['loops']], [l['kw'] + '/' + l['hdr'] for l in cur_shape['loops']])
+        if len(loop_map) < len(baseline['loops']) and len(baseline['loops']) == len(cur_shape['loops']):
+            loop_map = {k: k for k in range(len(baseline['loops']))}   # same number of loops: keep their order
+
     def need_loop(k):
+        k0 = k
+        if loop_map is not None:
+            if (k - 1) not in loop_map:
+                raise WeaveError('lost anchor: %s: loop %d of the structure the contract was written for has no counterpart' % (name, k))
+            k = loop_map[k - 1] + 1
         if k < 1 or k > len(loops):
-            raise WeaveError('lost anchor: %s has %d loops, contract refers to loop %d' % (name, len(loops), k))
+            raise WeaveError('lost anchor: %s has %d loops, contract refers to loop %d' % (name, len(loops), k0))
         return loops[k - 1]
+
+    def map_top(j):
+        if top_map is None:
+            return j
+        if (j - 1) not in top_map:
+            raise WeaveError('lost anchor: %s: top-level statement %d of the structure the contract was written for has no counterpart' % (name, j))
+        return top_map[j - 1] + 1
+
+    def map_loopstmt(k, j):
+        if loop_map is None:
+            return j
+        ob, nb = baseline['loops'][k - 1]['stmts'], cur_shape['loops'][loop_map[k - 1]]['stmts']
+        if ob == nb:
+            return j
+        mp = _align(ob, nb)
+        if (j - 1) not in mp:
+            raise WeaveError('lost anchor: %s: statement %d of loop %d has no counterpart' % (name, j, k))
+        return mp[j - 1] + 1
 
     order = 0
     edits.append((sig_brace + 1, -1, '/*@ENTRY:%s*/' % name))
@@ -300,6 +415,7 @@ def weave_fn(fs: FnSpec, text: str, sig_brace: int, shim_table, variant=0):
         elif kind in ('after_loopstmt', 'before_loopstmt'):
             lp = need_loop(arg[0])
             stmts = top_statements(m, lp['open'])
+            arg = (arg[0], map_loopstmt(arg[0], arg[1]))
             if arg[1] < 1 or arg[1] > len(stmts):
                 raise WeaveError('lost anchor: %s loop %d has %d body statements, contract refers to statement %d' % (name, arg[0], len(stmts), arg[1]))
             lint_ghost_block(name, kind, stext)
@@ -307,6 +423,7 @@ def weave_fn(fs: FnSpec, text: str, sig_brace: int, shim_table, variant=0):
             edits.append((b0 if kind == 'after_loopstmt' else a0, order, block(name, '%s%d_%d' % (kind, arg[0], arg[1]), stext)))
         elif kind in ('after_top', 'before_top'):
             tops = top_statements(m, sig_brace)
+            arg = map_top(arg)
             if arg < 1 or arg > len(tops):
                 raise WeaveError('lost anchor: %s has %d top-level statements, contract refers to statement %d' % (name, len(tops), arg))
             lint_ghost_block(name, kind, stext)
@@ -406,6 +523,11 @@ def build_unit(spec_path, repo, contracts_dir, shim_table, force_extern=None, va
             srcs[rel] = Source(os.path.join(repo, rel))
         return srcs[rel]
 
+    shapes = {}
+    sp_ = os.path.join(contracts_dir, 'shapes.json')
+    if os.path.exists(sp_):
+        import json as _json
+        shapes = _json.load(open(sp_))
     out_types = []
     out_consts = []
     roundtrip = []  # (file, verbatim text that must occur in file)
@@ -502,9 +624,20 @@ def build_unit(spec_path, repo, contracts_dir, shim_table, force_extern=None, va
         blockfn = bool(fs.opts.get('closurefn') or fs.opts.get('staticfn'))
         degraded = None
         woven = None
+        shape = None
+        shape_changed = False
+        want = shapes.get(u.name, {}).get(fs.name)
+        if not fs.extern:
+            try:
+                shape = fn_shape(text, brace - a)
+            except Exception as e:   # noqa: BLE001
+                shape = None
+            # "changed" means the statement *structure* (kinds and counts), not the content of a statement: a contract is
+            # expected to notice a changed statement, but it cannot be blamed on a proof step that now sits somewhere else
+            shape_changed = bool(want) and shape is not None and _structure(shape) != _structure(want)
         if not fs.extern and fs.name not in force_extern:
             try:
-                woven = weave_fn(fs, text, brace - a, shim_table, variant)
+                woven = weave_fn(fs, text, brace - a, shim_table, variant, want if (want and isinstance(want, dict)) else None)
             except WeaveError as e:
                 # this function cannot be woven (lost anchor / shim no longer matches): keep the unit alive by
                 # assuming its contract; every obligation of the function is then reported as UNDECIDED
@@ -533,7 +666,7 @@ def build_unit(spec_path, repo, contracts_dir, shim_table, force_extern=None, va
         fn_info[fs.name] = dict(src=rel, line=s.lineno(a), impl=hdr, text=text, props=fs.props, extern=fs.extern,
                                 shims=fs.shims, degraded=degraded, src_name=fs.src_name, implname=fs.impl,
                                 imported=fs.opts.get('imported'),
-                                local=[q for q in fs.opts.get('local', '').split(',') if q],
+                                local=[q for q in fs.opts.get('local', '').split(',') if q], shape=shape, shape_changed=shape_changed,
                                 # every property named in a label tag of this function's contract (a degraded function
                                 # has no woven invariants, but its tagged obligations are still undecided, not absent)
                                 label_props=sorted(set(q for (_k, _a, _o, t) in fs.sections
